@@ -217,7 +217,7 @@ func parseContractFile(path, pkgPath string, pc *PkgContracts) error {
 	return nil
 }
 
-var funcHeadRe = regexp.MustCompile(`^(?:\(\s*(\w+)\s+(\*?)([\w\.\[\]\$,]+)\s*\)\s*)?([\w\.\$]+)\s*$`)
+var funcHeadRe = regexp.MustCompile(`^(?:\(\s*(\w+)\s+(\*?)([\w\./\[\]\$,]+)\s*\)\s*)?([\w\./\$]+)\s*$`)
 var loopHeadRe = regexp.MustCompile(`^(.*?)\s*#(\d+)\s*$`)
 var specHeadRe = regexp.MustCompile(`^(?:\(\s*(\w+)\s+\*?([\w\.]+)\s*\)\s*)?(\w+)\s*\(([^)]*)\)\s*([\w\.\[\]\*]*)\s*=\s*(.*)$`)
 
@@ -325,9 +325,13 @@ func (pc *PkgContracts) addItem(it *rawItem, path string) error {
 		fmt.Sscanf(m[2], "%d", &ord)
 		lc := &LoopContract{Ordinal: ord, Line: it.line}
 		for _, c := range it.items {
-			cl, err := mkClause(c, path)
-			if err != nil {
-				return err
+			var cl *Clause
+			if c.kw == "invariant" || c.kw == "decreases" {
+				var err error
+				cl, err = mkClause(c, path)
+				if err != nil {
+					return err
+				}
 			}
 			switch c.kw {
 			case "invariant":
